@@ -5,6 +5,8 @@ package main
 // verification is an uninterpreted predicate, json.Marshal of a string map is its sorted rendering.
 
 import (
+	"strings"
+	"regexp"
 	"fmt"
 	"go/types"
 	"hash/fnv"
@@ -69,6 +71,25 @@ func (m *Machine) jsonObject(ks, vs []*Term) *Term {
 	return m.in.Concat(parts...)
 }
 
+const caipPattern = "^[-a-z0-9]{3,8}:[-_a-zA-Z0-9]{1,32}:[-.%a-zA-Z0-9]{1,64}$"
+
+var (
+	caipGo  = regexp.MustCompile(caipPattern)
+	caipGo1 = regexp.MustCompile("^[-a-z0-9]{3,8}$")
+	caipGo2 = regexp.MustCompile("^[-_a-zA-Z0-9]{1,32}$")
+	caipGo3 = regexp.MustCompile("^[-.%a-zA-Z0-9]{1,64}$")
+)
+
+const (
+	reLower = `(re.range "a" "z")`
+	reUpper = `(re.range "A" "Z")`
+	reDigit = `(re.range "0" "9")`
+	caipRe1 = `((_ re.loop 3 8) (re.union (str.to_re "-") ` + reLower + ` ` + reDigit + `))`
+	caipRe2 = `((_ re.loop 1 32) (re.union (str.to_re "-") (str.to_re "_") ` + reLower + ` ` + reUpper + ` ` + reDigit + `))`
+	caipRe3 = `((_ re.loop 1 64) (re.union (str.to_re "-") (str.to_re ".") (str.to_re "%") ` + reLower + ` ` + reUpper + ` ` + reDigit + `))`
+	caipRe  = `(re.++ ` + caipRe1 + ` (str.to_re ":") ` + caipRe2 + ` (str.to_re ":") ` + caipRe3 + `)`
+)
+
 func init() {
 	reg("encoding/json.Marshal", func(m *Machine, fn *ssa.Function, a []Value) Value {
 		iv := a[0].(*IfaceVal)
@@ -99,7 +120,13 @@ func init() {
 		return m.ufBytes("sha256", m.hashArg(m.bytesToStr(m.toBytes(a[0]))))
 	})
 	reg("encoding/hex.EncodeToString", func(m *Machine, fn *ssa.Function, a []Value) Value {
-		return m.in.UF("hexenc", SString, m.bytesToStr(m.toBytes(a[0])))
+		x := m.bytesToStr(m.toBytes(a[0]))
+		e := m.in.UF("hexenc", SString, x)
+		if !x.IsConst() {
+			m.addPC(m.in.Eq(m.in.UF("hexdec", SString, e), x))
+			m.addPC(m.in.UF("validhex", SBool, e))
+		}
+		return e
 	})
 	reg("encoding/hex.DecodeString", func(m *Machine, fn *ssa.Function, a []Value) Value {
 		s := a[0].(*Term)
@@ -110,7 +137,13 @@ func init() {
 		return TupleVal{&BytesVal{isNil: true}, m.newError(m.in.Str("invalid hex"))}
 	})
 	reg("(*encoding/base64.Encoding).EncodeToString", func(m *Machine, fn *ssa.Function, a []Value) Value {
-		return m.in.UF("b64enc", SString, m.bytesToStr(m.toBytes(a[1])))
+		x := m.bytesToStr(m.toBytes(a[1]))
+		e := m.in.UF("b64enc", SString, x)
+		if !x.IsConst() {
+			m.addPC(m.in.Eq(m.in.UF("b64dec", SString, e), x))
+			m.addPC(m.in.UF("validb64", SBool, e))
+		}
+		return e
 	})
 	reg("(*encoding/base64.Encoding).DecodeString", func(m *Machine, fn *ssa.Function, a []Value) Value {
 		s := a[1].(*Term)
@@ -125,20 +158,65 @@ func init() {
 		if !pat.IsConst() {
 			m.unsupported("regexp with symbolic pattern")
 		}
-		h := fnv.New32a()
-		h.Write([]byte(pat.sv))
-		ok := m.in.UF(fmt.Sprintf("regex_%x", h.Sum32()), SBool, s)
-		// the CAIP-10 account id pattern: three non-empty ':'-separated parts without further ':'
-		if pat.sv == "^[-a-z0-9]{3,8}:[-_a-zA-Z0-9]{1,32}:[-.%a-zA-Z0-9]{1,64}$" {
-			p1, p2, p3 := m.in.UF("caip_net", SString, s), m.in.UF("caip_chain", SString, s), m.in.UF("caip_addr", SString, s)
+		// the CAIP-10 account id pattern is encoded exactly as an SMT regular expression; a match also gives the
+		// three ':'-free parts, which licenses strings.Split(s, ":") without forking
+		if pat.sv == caipPattern {
 			col := m.in.Str(":")
+			// an id built as "<net>:<chain>:" ++ x: the constant part is decided here, x only has to be a CAIP address part
+			if ps := m.in.concatParts(s); len(ps) >= 2 && ps[0].IsConst() {
+				pre := ps[0].sv
+				if i := strings.Index(pre, ":"); i >= 0 {
+					if j := strings.Index(pre[i+1:], ":"); j >= 0 {
+						j += i + 1
+						netS, chainS, rest3 := pre[:i], pre[i+1:j], pre[j+1:]
+						if !caipGo1.MatchString(netS) || !caipGo2.MatchString(chainS) || (rest3 != "" && !caipGo3.MatchString(rest3)) {
+							return TupleVal{m.in.Bool(false), nilIface}
+						}
+						tail := ps[1:]
+						rem := m.in.Concat(append([]*Term{m.in.Str(rest3)}, tail...)...)
+						var ok *Term
+						if rest3 == "" && len(tail) == 1 && m.pcHolds(m.in.UF("validbech32_acc", SBool, tail[0])) {
+							ok = m.in.Bool(true) // a bech32 address is 42 lower-case alphanumerics
+						} else {
+							ok = m.in.StrInRe(rem, caipRe3, nil)
+						}
+						m.splitMemo = append(m.splitMemo, splitMemo{s: s, sep: col, guard: ok, parts: []*Term{m.in.Str(netS), m.in.Str(chainS), rem}})
+						if ok.IsConst() {
+							m.splitMemo[len(m.splitMemo)-1].guard = nil
+						}
+						return TupleVal{ok, nilIface}
+					}
+				}
+			}
+			if s.IsConst() {
+				return TupleVal{m.in.Bool(caipGo.MatchString(s.sv)), nilIface}
+			}
+			// a free string: the match is an uninterpreted predicate that implies the exact shape of the three parts
+			// (so every model of a matching string matches the real pattern); full-string regular-expression
+			// membership together with the part equations stalls all three solvers
+			ok := m.in.UF("caip_ok", SBool, s)
+			p1, p2, p3 := m.in.UF("caip_net", SString, s), m.in.UF("caip_chain", SString, s), m.in.UF("caip_addr", SString, s)
 			m.addPC(m.in.Implies(ok, m.in.And(
 				m.in.Eq(s, m.in.Concat(p1, col, p2, col, p3)),
 				m.in.Not(m.in.StrContains(p1, col)), m.in.Not(m.in.StrContains(p2, col)), m.in.Not(m.in.StrContains(p3, col)),
-				m.in.Ge(m.in.StrLen(p1), m.in.I64(3)), m.in.Ge(m.in.StrLen(p2), m.in.I64(1)), m.in.Ge(m.in.StrLen(p3), m.in.I64(1)))))
+				m.in.Ge(m.in.StrLen(p1), m.in.I64(3)), m.in.Le(m.in.StrLen(p1), m.in.I64(8)),
+				m.in.Ge(m.in.StrLen(p2), m.in.I64(1)), m.in.Le(m.in.StrLen(p2), m.in.I64(32)),
+				m.in.Ge(m.in.StrLen(p3), m.in.I64(1)), m.in.Le(m.in.StrLen(p3), m.in.I64(64)))))
+			// the character classes only matter for replaying a model against the real pattern: they are added to the
+			// final counterexample query (see checkViolation), not to every feasibility query
+			m.realise = append(m.realise, m.in.Implies(ok, m.in.And(
+				m.in.StrInRe(p1, caipRe1, nil), m.in.StrInRe(p2, caipRe2, nil), m.in.StrInRe(p3, caipRe3, nil))))
 			m.splitMemo = append(m.splitMemo, splitMemo{s: s, sep: col, guard: ok, parts: []*Term{p1, p2, p3}})
+			return TupleVal{ok, nilIface}
 		}
-		return TupleVal{ok, nilIface}
+		if smt, ok := reToSmt(pat.sv); ok {
+			if g, err := regexp.Compile(pat.sv); err == nil {
+				return TupleVal{m.in.StrInRe(s, smt, g), nilIface}
+			}
+		}
+		h := fnv.New32a()
+		h.Write([]byte(pat.sv))
+		return TupleVal{m.in.UF(fmt.Sprintf("regex_%x", h.Sum32()), SBool, s), nilIface}
 	})
 	// secp256k1 public keys: address and signature check are uninterpreted
 	reg("(*github.com/cosmos/cosmos-sdk/crypto/keys/secp256k1.PubKey).Address", func(m *Machine, fn *ssa.Function, a []Value) Value {
@@ -149,7 +227,16 @@ func init() {
 	reg("(*github.com/cosmos/cosmos-sdk/crypto/keys/secp256k1.PubKey).VerifySignature", func(m *Machine, fn *ssa.Function, a []Value) Value {
 		p := m.force(a[0]).(Pointer)
 		sv := m.load(p).(*StructVal)
-		return m.in.UF("secpverify", SBool, m.bytesToStr(m.toBytes(sv.f[0])), m.bytesToStr(m.toBytes(a[1])), m.bytesToStr(m.toBytes(a[2])))
+		pk, msg, sig := m.bytesToStr(m.toBytes(sv.f[0])), m.bytesToStr(m.toBytes(a[1])), m.bytesToStr(m.toBytes(a[2]))
+		v := m.in.UF("secpverify", SBool, pk, msg, sig)
+		// a signature verifies at most one message under one key (no collisions)
+		for _, o := range m.sigChecks {
+			if o.v != v {
+				m.addPC(m.in.Or(m.in.Not(v), m.in.Not(o.v), m.in.Not(m.in.Eq(pk, o.pk)), m.in.Not(m.in.Eq(sig, o.sig)), m.in.Eq(msg, o.msg)))
+			}
+		}
+		m.sigChecks = append(m.sigChecks, sigCheck{pk: pk, msg: msg, sig: sig, v: v})
+		return v
 	})
 	reg(sdkTypes+".Bech32ifyAddressBytes", func(m *Machine, fn *ssa.Function, a []Value) Value {
 		return TupleVal{m.in.UF("bech32ify", SString, a[0].(*Term), m.bytesToStr(m.toBytes(a[1]))), nilIface}
@@ -170,3 +257,5 @@ func init() {
 
 var _ = sort.Strings
 var _ types.Type
+
+type sigCheck struct{ pk, msg, sig, v *Term }
